@@ -72,6 +72,8 @@ type Interp struct {
 	// statistics (accumulated over paths)
 	FuncsSeen map[string]bool
 	deferRun  []*frame // frames currently running defers while panicking
+	undo      map[*Obj]Value
+	atomCache map[int][]int
 	jr        *JobResult
 	work      *workList
 	hcfg      *HarnessCfg
@@ -86,6 +88,7 @@ type Config struct {
 	MaxPaths      int
 	MapOrder      string
 	Verbose       int
+	NoSlice       bool
 }
 
 func (it *Interp) bug(f string, a ...interface{}) *pathEnd {
@@ -124,7 +127,7 @@ func (it *Interp) curPos() string {
 }
 
 func (it *Interp) goPanicStr(kind, msg string) {
-	panic(&GoPanic{Val: IfaceV{T: types.Typ[types.String], V: StrV{S: msg}}, Msg: msg, Kind: kind, Pos: it.where()})
+	panic(&GoPanic{Val: IfaceV{T: types.Typ[types.String], V: StrV{S: msg}}, Msg: msg, Kind: kind, Pos: it.curPos() + " in " + it.where()})
 }
 
 func (it *Interp) goPanicNilDeref() {
@@ -247,6 +250,9 @@ func (it *Interp) ensureInit(pkg *ssa.Package) {
 		}
 	}
 	initFn := pkg.Func("init")
+	if initFn != nil && !it.skipInit(pkg) {
+		it.L.buildPackage(pkg)
+	}
 	if initFn != nil && initFn.Blocks != nil && !it.skipInit(pkg) {
 		saveStack := it.stack
 		saveP := it.P
@@ -269,6 +275,11 @@ func (it *Interp) ensureInit(pkg *ssa.Package) {
 			it.callSSA(initFn, nil, nil)
 		}()
 		it.P = saveP
+		if it.Cfg.Verbose > 2 {
+			fmt.Printf("note: init of %s done\n", pkg.Pkg.Path())
+		}
+	} else if it.Cfg.Verbose > 2 {
+		fmt.Printf("note: init of %s skipped (fn=%v)\n", pkg.Pkg.Path(), initFn != nil)
 	}
 	it.pkgInit[pkg] = 2
 }
@@ -298,9 +309,12 @@ func (it *Interp) callFn(fn *ssa.Function, args []Value, env []Value, pos token.
 	if it.inInit > 0 && fn.Name() == "init" && fn.Synthetic != "" && fn.Signature.Recv() == nil {
 		return nil // imported packages are initialised lazily
 	}
-	if fn.Blocks == nil {
-		it.L.ensureBuilt(fn)
+	if it.inInit > 0 {
+		if p := fn.Package(); p != nil && initOpaquePkgs[p.Pkg.Path()] {
+			return it.opaqueResult(fn.Signature, "init-time call of "+fn.String())
+		}
 	}
+	it.L.ensureBuilt(fn)
 	if fn.Blocks == nil {
 		if it.inInit > 0 {
 			return it.opaqueResult(fn.Signature, "init-time call of body-less "+fn.String())
@@ -420,6 +434,9 @@ func (it *Interp) runFrame(fr *frame) Value {
 		done := false
 		for _, ins := range blk.Instrs {
 			it.steps++
+			if ps := ins.Pos(); ps.IsValid() {
+				fr.callPos = ps
+			}
 			if it.steps > it.Cfg.MaxSteps {
 				it.abort("step budget exceeded (%d)", it.Cfg.MaxSteps)
 			}
@@ -554,7 +571,7 @@ func (it *Interp) exec(fr *frame, ins ssa.Instruction) {
 		}
 		it.set(fr, x, deepCopy(s.F[x.Field]))
 	case *ssa.IndexAddr:
-		base := it.get(fr, x.X)
+		base := it.forceLazy(it.get(fr, x.X))
 		idx := it.get(fr, x.Index).(*smt.Term)
 		switch b := base.(type) {
 		case SliceV:
@@ -1057,7 +1074,7 @@ func (it *Interp) convert(v Value, from, to types.Type) Value {
 }
 
 func (it *Interp) sliceOp(fr *frame, x *ssa.Slice) Value {
-	base := it.get(fr, x.X)
+	base := it.forceLazy(it.get(fr, x.X))
 	getIdx := func(v ssa.Value, def int) int {
 		if v == nil {
 			return def
